@@ -24,10 +24,18 @@ ASSUMED = {
         "(hence {sum(el)} is the k-fold sumset; one empty tuple for k=0; nothing for k<0)",
     "isinstance": "isinstance follows the class hierarchy read from the repository sources (closed world)",
     "int.bit_length": "n.bit_length() for n>=0 is the least w with n < 2**w",
-    "math.log2/ceil": "2**ceil(log2(n)) for concrete n in [1,64] is evaluated on the running math module",
+    "math.log2/ceil": "ceil(log2(n)) for n in [1,256] is evaluated on the running math module (a table); for n > 256 "
+                      "it is some e >= 9 with 2**(e-1) < n <= 2**e (monotonicity / accuracy of math.log2 assumed)",
     "dict": "dict lookup raises KeyError iff the key is absent; insertion order iteration",
     "fractions.Fraction": "Fraction is an exact rational: + - * exact, / and % raise ZeroDivisionError iff divisor is 0",
     "str.lower": "str.lower is an uninterpreted per-string function unless the string is concrete",
+    "str.split": "s.split(c) for a one-character c: >= 1 components, none contains c, one component iff c not in s "
+                 "(then it is s), s starts with the first and ends with the last component (canonical function of s)",
+    "str.join": "c.join(seq) for a one-character c is a function of the sequence; splitting it at c gives the sequence "
+                "back when it is non-empty and no element contains c",
+    "str.strip": "str.strip is an uninterpreted per-string function unless the string is concrete",
+    "pathlib (pure paths)": "a path is an opaque value with .parent / .stem / .name / .parts as uninterpreted functions; "
+                            "Path(p) of a path is that path; nothing about the file system is modelled",
 }
 
 BUILTIN_FUNCS = {
@@ -38,6 +46,13 @@ BUILTIN_FUNCS = {
 }
 
 TYPE_NAMES = {"int", "str", "bool", "float", "set", "frozenset", "list", "tuple", "dict", "bytes", "bytearray", "object", "type"}
+
+
+class Log2V:
+    """math.log2(x) of a symbolic positive integer x: only math.ceil of it is modelled."""
+
+    def __init__(self, arg):
+        self.arg = arg
 
 
 class Lib:
@@ -69,6 +84,8 @@ class Lib:
 
     # ------------------------------------------------------------------ attribute access on non-repo values
     def getattr(self, ctx, o, name: str):
+        if isinstance(o, V.PathV):
+            return self.path_attr(ctx, o, name)
         if isinstance(o, V.FractionV):
             if name == "denominator":
                 d = self.e.uf("frac!den", z3.RealSort(), z3.IntSort())(o.term)
@@ -78,6 +95,15 @@ class Lib:
                 n = self.e.uf("frac!num", z3.RealSort(), z3.IntSort())(o.term)
                 ctx.assume(z3.Implies(z3.IsInt(o.term), z3.ToReal(n) == o.term))
                 return n
+        if isinstance(o, (V.ExtModule, V.Builtin)) and getattr(o, "bound", None) is None and o.name == "string" \
+                and name in ("ascii_letters", "ascii_lowercase", "ascii_uppercase", "digits", "hexdigits", "octdigits"):
+            import string as _string
+
+            return getattr(_string, name)  # constants of the running interpreter's `string` module
+        from . import strmodel as _sm
+
+        if isinstance(o, _sm.RegexV):
+            return V.Builtin("method." + name, bound=o)
         if isinstance(o, V.ExtModule):
             return V.Builtin(o.name + "." + name)
         if isinstance(o, V.Builtin) and o.bound is None:
@@ -194,6 +220,10 @@ class Lib:
         if isinstance(a, V.Opaque) or isinstance(b, V.Opaque):
             if ctx.opaque_ok:
                 return V.Opaque("binop")
+            if isinstance(op, ast.Add) and all(
+                    (isinstance(x, V.Opaque) and x.what.startswith("formatted")) or isinstance(x, str)
+                    or (isinstance(x, z3.ExprRef) and z3.is_string(x)) for x in (a, b)):
+                return V.Opaque("formatted string")  # concatenation of message texts: a string nobody inspects
             raise EngineLimit("arithmetic on opaque value")
         if isinstance(a, str) and isinstance(op, ast.Mod):
             return V.Opaque("formatted string")
@@ -235,6 +265,10 @@ class Lib:
         if z3.is_string(ta):
             if isinstance(op, ast.Add):
                 return z3.Concat(ta, tb)
+            if isinstance(op, ast.Div):
+                # pathlib.Path values are represented by strings that are only passed around and compared
+                ASSUMED.setdefault("pathlib./", "Path / x is some path, a function of both operands (never raises)")
+                return self.e.uf("path!join", z3.StringSort(), z3.StringSort(), z3.StringSort())(ta, tb)
             raise EngineLimit("string operator")
         ta, tb = e.to_num(ta), e.to_num(tb)
         if isinstance(op, ast.Add):
@@ -376,7 +410,7 @@ class Lib:
         raise EngineLimit("set operator")
 
     def seq_concat(self, ctx, a, b):
-        other = b if isinstance(a, SymSeq) else a
+        other = a if isinstance(a, SymSeq) else b  # the symbolic operand (gives the element kind of a literal operand)
 
         def as_seq(v):
             if isinstance(v, SymSeq):
@@ -394,10 +428,28 @@ class Lib:
         a, b = as_seq(a), as_seq(b)
         i = z3.FreshConst(z3.IntSort(), "i")
         arr = z3.Lambda([i], z3.If(i < a.length, z3.Select(a.arr, i), z3.Select(b.arr, i - a.length)))
-        return SymSeq(arr, a.length + b.length, a.kind, fresh=True)
+        kind = a.kind
+        if isinstance(a.kind, V.ObjOf) and isinstance(b.kind, V.ObjOf) and a.kind.clsname != b.kind.clsname:
+            # lists of objects of different classes: the elements of the result are of the nearest common base class
+            ca, cb = self.e.repo.cls(a.kind.clsname), self.e.repo.cls(b.kind.clsname)
+            common = [c for c in ca.mro() if c in cb.mro()]
+            if not common:
+                raise EngineLimit("concatenation of lists of unrelated classes")
+            kind = V.ObjOf(common[0].qualname)
+        return SymSeq(arr, a.length + b.length, kind, fresh=True)
 
     # ------------------------------------------------------------------ comparisons
     def order(self, ctx, op, a, b):
+        if isinstance(a, OptV) or isinstance(b, OptV):
+            # None is not orderable (TypeError); a present value compares as itself
+            vals = []
+            for x in (a, b):
+                if isinstance(x, OptV):
+                    if ctx.decide(lift(self.e, ctx, x.is_none)):
+                        raise self.raise_ext("TypeError")
+                    x = x.val
+                vals.append(x)
+            a, b = vals
         if isinstance(a, V.Opaque) or isinstance(b, V.Opaque):
             raise EngineLimit("ordering comparison with an unmodelled value")
         if isinstance(a, V.FractionV) or isinstance(b, V.FractionV):
@@ -456,6 +508,12 @@ class Lib:
         if isinstance(container, str):
             if isinstance(item, str):
                 return item in container
+            from . import strmodel as _sm
+
+            if _sm.ENABLED:
+                r = _sm.char_in_concrete(self.e, ctx, container, item)
+                if r is not None:
+                    return r
             return z3.Contains(z3.StringVal(container), item)
         if isinstance(container, z3.ExprRef) and z3.is_string(container):
             return z3.Contains(container, V.Str.unwrap(item))
@@ -521,6 +579,12 @@ class Lib:
             except IndexError:
                 raise self.raise_ext("IndexError")
         if isinstance(o, z3.ExprRef) and z3.is_string(o):
+            from . import strmodel as _sm
+
+            if _sm.ENABLED:
+                r = _sm.first_char(self.e, ctx, o, k)
+                if r is not None:
+                    return r
             kt = V.Int.unwrap(k)
             n = z3.Length(o)
             idx = z3.If(kt < 0, kt + n, kt)
@@ -543,6 +607,8 @@ class Lib:
                 return PyList(r) if isinstance(o, PyList) else tuple(r)
             raise EngineLimit("symbolic slice of a concrete list")
         if isinstance(o, SymSeq):
+            if lo is None and hi is None:
+                return SymSeq(o.arr, o.length, o.kind, fresh=True)  # x[:] - a fresh copy with the same elements
             lo_t = z3.IntVal(0) if lo is None else V.Int.unwrap(lo)
             hi_t = o.length if hi is None else V.Int.unwrap(hi)
             lo_n = z3.If(lo_t < 0, z3.If(lo_t + o.length < 0, 0, lo_t + o.length), z3.If(lo_t > o.length, o.length, lo_t))
@@ -553,6 +619,9 @@ class Lib:
             return SymSeq(arr, ln, o.kind, fresh=True)
         if isinstance(o, str):
             return o[lo:hi]
+        if isinstance(o, z3.ExprRef) and z3.is_string(o) and hi is None and isinstance(lo, int) and lo >= 0:
+            # s[k:] for a constant k >= 0: the suffix after the first k characters (empty if shorter)
+            return z3.SubString(o, z3.IntVal(lo), z3.Length(o))
         raise EngineLimit("slice of %r" % (o,))
 
     def setitem(self, ctx, o, k, v):
@@ -592,6 +661,7 @@ class Lib:
             return self.call_method(ctx, b.bound, name[len("method."):], args, kwargs)
         if name.startswith("exc."):
             return self.call_exc_method(ctx, b.bound, name[len("exc."):], args, kwargs)
+        self._lib_pre(ctx, name, args, kwargs)
         fn = getattr(self, "bi_" + name.replace(".", "_"), None)
         if fn is None:
             from . import bytesmodel
@@ -605,7 +675,27 @@ class Lib:
             raise EngineLimit("call of external function %s" % name)
         return fn(ctx, *args, **kwargs)
 
+    def _lib_pre(self, ctx, name, args, kwargs):
+        """Assert-style obligations on the arguments of a library call made by the function under verification:
+           the contract declares `lib_pre = {"<library function>": fn(s, args) -> dict label -> clause}`; each clause is
+           obligated under the path condition at the call (inside a set-building loop: for an arbitrary iteration)."""
+        c = getattr(ctx, "top_contract", None)
+        if c is None or ctx.spec_mode or ctx.inline_depth:
+            return
+        table = getattr(c, "lib_pre", None) or getattr(c.impl, "lib_pre", None)
+        if not table or name not in table:
+            return
+        from .symexec import short, lift_bool
+
+        r = self.e.run_spec(ctx, table[name], ctx.top_ns, list(args))
+        for label, clause in (r or {}).items():
+            ctx.oblige("%s/lib-pre#%s#%s" % (short(ctx.func), name.split(".")[-1], label), lift_bool(clause), kind="assert")
+
     def call_exc_method(self, ctx, exc, name, args, kwargs):
+        if name == "set_error_location_if_unknown":
+            # pydsdl.Error.set_error_location_if_unknown only fills the exception's own path / line attributes
+            # (location bookkeeping of error objects is not modelled: no contract here mentions it)
+            return None
         raise EngineLimit("exception method %s" % name)
 
     # -- simple ones
@@ -663,7 +753,7 @@ class Lib:
         raise EngineLimit("issubclass")
 
     def bi_callable(self, ctx, v):
-        return isinstance(v, (V.Closure, V.BoundMethod, V.Builtin, V.ClassVal, V.Partial))
+        return isinstance(v, (V.Closure, V.BoundMethod, V.Builtin, V.ClassVal, V.Partial, V.Recorder, V.SymClosure))
 
     def bi_int(self, ctx, x=0, base=None):
         if isinstance(x, bool):
@@ -679,6 +769,19 @@ class Lib:
             # int(Fraction) truncates toward zero
             t = x.term
             return z3.If(t >= 0, z3.ToInt(t), -z3.ToInt(-t))
+        if isinstance(x, OptV):
+            # int(None) raises TypeError
+            if ctx.decide(lift(self.e, ctx, x.is_none)):
+                raise self.raise_ext("TypeError")
+            return self.bi_int(ctx, x.val, base)
+        if isinstance(x, z3.ExprRef) and z3.is_string(x) and base is None:
+            from . import strmodel as _sm
+
+            if _sm.ENABLED:
+                ok, val = _sm.py_int_of_str(self.e, ctx, x)
+                if ctx.decide(z3.Not(ok)):
+                    raise self.raise_ext("ValueError", "int() of a string that is not an integer literal")
+                return val
         if isinstance(x, str):
             try:
                 return int(x) if base is None else int(x, base)
@@ -690,6 +793,8 @@ class Lib:
         return self.e.truth(ctx, x)
 
     def bi_str(self, ctx, x=""):
+        if isinstance(x, OptV) and not isinstance(x.is_none, bool) and not self.e.feasible(ctx, x.is_none):
+            x = x.val  # the path condition excludes None
         if isinstance(x, str):
             return x
         if isinstance(x, z3.ExprRef) and z3.is_string(x):
@@ -752,6 +857,13 @@ class Lib:
     def bi_getattr(self, ctx, o, name, *default):
         if not isinstance(name, str):
             raise EngineLimit("getattr with a non-constant name")
+        if default and isinstance(o, Obj):
+            # getattr(obj, name, default): the class index decides whether the attribute exists
+            k, _ = self.e.field_kind(o.cls, name)
+            exists = (o.cls.lookup(name) is not None or o.cls.lookup_attr(name) is not None or k is not None
+                      or (o.fields is not None and name in o.fields))
+            if not exists:
+                return default[0]
         return self.e.getattr(ctx, o, name)
 
     def bi_print(self, ctx, *a, **k):
@@ -769,6 +881,8 @@ class Lib:
 
     def hash_of(self, ctx, x):
         """hash() of builtin values: an uninterpreted function of the value (equal values => equal hashes)."""
+        if hasattr(x, "term") and type(x).__name__ == "_RawHash":
+            return x.term  # spec side: a tuple component whose hash is given directly
         if isinstance(x, tuple):
             h = self.e.uf("hash!tuple%d" % len(x), *([z3.IntSort()] * len(x)), z3.IntSort())
             return h(*[V.Int.unwrap(self.bi_hash(ctx, c)) for c in x])
@@ -787,6 +901,8 @@ class Lib:
                 return self.e.uf("hash!str", z3.StringSort(), z3.IntSort())(x)
             if z3.is_real(x):
                 return self.e.uf("hash!real", z3.RealSort(), z3.IntSort())(x)
+            if x.sort() == V.PyValSort:
+                return self.e.uf("hash!val", V.PyValSort, z3.IntSort())(x)
         if isinstance(x, V.FractionV):
             return self.e.uf("hash!real", z3.RealSort(), z3.IntSort())(x.term)
         if isinstance(x, SymSet):
@@ -853,7 +969,53 @@ class Lib:
         return V.RangeV(a, b, step)
 
     def bi_sorted(self, ctx, it, key=None, reverse=False):
-        raise EngineLimit("sorted()")
+        """ASSUMED (CPython list.sort / sorted): the result is a permutation of the input, ordered by the key
+           (non-decreasing, lexicographic on tuples) and stable (elements with equal keys keep their input order)."""
+        from .loops import symbolic_template, mk_forall
+
+        if isinstance(it, V.MappedIter):
+            from .loops import list_of_mapped
+
+            it = list_of_mapped(self.e, ctx, it)
+        if not isinstance(it, SymSeq) or key is None or reverse is not False:
+            raise EngineLimit("sorted() of %r (only sorted(<symbolic sequence>, key=f) is modelled)" % (it,))
+        ASSUMED.setdefault("sorted", "sorted(seq, key=f) returns a permutation of seq that is non-decreasing in f "
+                           "(tuples compare lexicographically, str by code points) and stable")
+        n = it.length
+        out = SymSeq(ctx.fresh("sorted!arr", it.arr.sort()), n, it.kind, fresh=True)
+        ctx.counter += 1
+        perm = z3.Function("sorted!perm!%d" % ctx.counter, z3.IntSort(), z3.IntSort())
+        inv = z3.Function("sorted!inv!%d" % ctx.counter, z3.IntSort(), z3.IntSort())
+        j, k, i = z3.Ints("sj sk si")
+        sel = z3.Select
+        ctx.assume(mk_forall([j], z3.Implies(z3.And(0 <= j, j < n),
+                                             z3.And(0 <= perm(j), perm(j) < n, sel(out.arr, j) == sel(it.arr, perm(j)),
+                                                    inv(perm(j)) == j)), patterns=[sel(out.arr, j)]))
+        ctx.assume(mk_forall([i], z3.Implies(z3.And(0 <= i, i < n),
+                                             z3.And(0 <= inv(i), inv(i) < n, perm(inv(i)) == i,
+                                                    sel(out.arr, inv(i)) == sel(it.arr, i))), patterns=[sel(it.arr, i)]))
+        b, v, gs, src = symbolic_template(self.e, ctx, V.MappedIter(key, out))
+        comps = list(v) if isinstance(v, tuple) else [v]
+        terms = []
+        for c in comps:
+            if isinstance(c, str):
+                c = z3.StringVal(c)
+            elif isinstance(c, (int, bool)):
+                c = z3.IntVal(int(c))
+            terms.append(c)
+        at = lambda t, idx: z3.substitute(t, (b.consts[0], idx))
+
+        def lex_le(a, c):
+            if not a:
+                return z3.BoolVal(True)
+            return z3.Or(a[0] < c[0], z3.And(a[0] == c[0], lex_le(a[1:], c[1:])))
+
+        kj, kk = [at(t, j) for t in terms], [at(t, k) for t in terms]
+        same = z3.And(*[x == y for x, y in zip(kj, kk)])
+        ctx.assume(mk_forall([j, k], z3.Implies(z3.And(0 <= j, j < k, k < n),
+                                                z3.And(lex_le(kj, kk), z3.Implies(same, perm(j) < perm(k)))),
+                             patterns=[z3.MultiPattern(sel(out.arr, j), sel(out.arr, k))]))
+        return out
 
     def bi_enumerate(self, ctx, it, start=0):
         items = self.e.iter_concrete(ctx, it)
@@ -978,47 +1140,103 @@ class Lib:
             return math.ceil(x.value)
         if isinstance(x, int):
             return x
+        if isinstance(x, Log2V):
+            return self.ceil_log2(ctx, x.arg)
         raise EngineLimit("math.ceil of a symbolic value")
 
+    _LOG2_CLASSES = 8
+
+    def ceil_log2(self, ctx, x):
+        """ceil(log2(x)) for a symbolic integer x >= 1: class e = 0..8 is `2**(e-1) < x <= 2**e` (checked against the
+        running math module for every x <= 256 - a table, not an assumption); x > 256: some e >= 9 (ASSUMED monotonicity
+        of math.log2) with pow2(e-1) < x <= pow2(e)."""
+        top = self._LOG2_CLASSES
+        if not getattr(self, "_log2_table_ok", False):
+            for e in range(0, top + 1):
+                lo = 1 if e == 0 else 2 ** (e - 1) + 1
+                for xv in range(lo, 2 ** e + 1):
+                    if math.ceil(math.log2(xv)) != e:
+                        raise EngineLimit("math.ceil(math.log2(%d)) != %d on the running interpreter" % (xv, e))
+            self._log2_table_ok = True
+        conds = []
+        for e in range(0, top + 1):
+            lo = 1 if e == 0 else 2 ** (e - 1) + 1
+            conds.append((e, z3.And(x >= lo, x <= 2 ** e)))
+        conds.append((None, x > 2 ** top))
+        feas = [(e, c) for e, c in conds if self.e.feasible(ctx, c)]
+        if not feas:
+            from .symexec import PathEnd
+
+            raise PathEnd()
+        k = ctx.choose(len(feas)) if len(feas) > 1 else 0
+        e, c = feas[k]
+        ctx.pc.append(c)
+        if e is not None:
+            return e
+        ev = ctx.fresh("ceillog2", z3.IntSort())
+        ctx.assume(z3.And(ev >= top + 1, self.pow2(ev) >= x, self.pow2(ev - 1) < x, self.pow2(ev) >= 2 ** (top + 1)))
+        return ev
+
     def concretize(self, ctx, t, limit=140):
-        """Case split a symbolic integer whose range under the path condition is small (finite instantiation)."""
+        """Case split a symbolic integer whose range under the path condition is small (finite instantiation):
+        all feasible values are enumerated once (cached per path condition), then one unconditional n-way fork."""
         if isinstance(t, int):
             return t
         from .symexec import has_quantifier, PathEnd
 
         cache = self.e.__dict__.setdefault("_concretize_cache", {})
-        for _ in range(limit):
-            qf = [p for p in ctx.pc if not has_quantifier(p)]
-            key = (tuple(p.get_id() for p in qf), t.get_id())
-            if key in cache:
-                v = cache[key][0]
-            else:
-                s = z3.Solver()
-                s.set("timeout", 2000)
-                for p in qf:
-                    s.add(p)
-                if s.check() != z3.sat:
-                    v = None
-                else:
-                    v = s.model().eval(t, model_completion=True)
-                cache[key] = (v, qf, t)
-            if v is None:
-                raise PathEnd()
-            if not z3.is_int_value(v):
-                raise EngineLimit("cannot concretize %s" % t)
-            if ctx.decide(t == v):
-                return v.as_long()
-        raise EngineLimit("value of %s is not confined to a small range at a point where a concrete integer is needed" % t)
+        qf = [p for p in ctx.pc if not has_quantifier(p)]
+        key = (tuple(p.get_id() for p in qf), t.get_id())
+        if key not in cache:
+            s = z3.Solver()
+            s.set("timeout", 5000)
+            for p in qf:
+                s.add(p)
+            vals = []
+            status = "ok"
+            while True:
+                r = s.check()
+                if r == z3.unsat:
+                    break
+                if r != z3.sat:
+                    status = "unknown"
+                    break
+                v = s.model().eval(t, model_completion=True)
+                if not z3.is_int_value(v):
+                    status = "nonint"
+                    break
+                vals.append(v.as_long())
+                if len(vals) > limit:
+                    status = "toomany"
+                    break
+                s.add(t != v)
+            cache[key] = (sorted(vals), status, qf, t)
+        vals, status = cache[key][0], cache[key][1]
+        if status == "toomany" or status == "nonint":
+            raise EngineLimit("value of %s is not confined to a small range at a point where a concrete integer is needed" % t)
+        if status == "unknown":
+            raise EngineLimit("cannot enumerate the values of %s (solver unknown)" % t)
+        if not vals:
+            raise PathEnd()
+        k = ctx.choose(len(vals)) if len(vals) > 1 else 0
+        ctx.pc.append(t == vals[k])
+        return vals[k]
 
     def bi_math_log2(self, ctx, x):
         if isinstance(x, V.FloatV):
             return V.FloatV(math.log2(x.value))
-        x = self.concretize(ctx, x)
-        if x > 0:
-            return V.FloatV(math.log2(x))
-        raise self.raise_ext("ValueError", "math.log2 of a non-positive number")
+        if isinstance(x, int):
+            if x > 0:
+                return V.FloatV(math.log2(x))
+            raise self.raise_ext("ValueError", "math.log2 of a non-positive number")
+        if ctx.decide(x <= 0):
+            raise self.raise_ext("ValueError", "math.log2 of a non-positive number")
+        return Log2V(x)
 
     def bi_round(self, ctx, x, nd=None):
+        if isinstance(x, Log2V) and nd is None:
+            v = self.concretize(ctx, x.arg)  # finite instantiation over the (small) range of the argument
+            return round(math.log2(v))
         if isinstance(x, V.FloatV) and nd is None:
             return round(x.value)
         if isinstance(x, int):
@@ -1084,6 +1302,26 @@ class Lib:
     bi_Fraction = bi_fractions_Fraction
     bi_frac = bi_fractions_Fraction
 
+    def bi_pathlib_Path(self, ctx, p):
+        if isinstance(p, V.PathV):
+            return p
+        raise EngineLimit("Path(%r)" % (p,))
+
+    bi_Path = bi_pathlib_Path
+    bi_pathlib_PurePath = bi_pathlib_Path
+
+    def path_attr(self, ctx, o, name):
+        P, S, I_ = V.PathSort, z3.StringSort(), z3.IntSort()
+        if name == "parent":
+            return V.PathV(self.e.uf("path!parent", P, P)(o.term))
+        if name in ("stem", "name", "suffix"):
+            return self.e.uf("path!" + name, P, S)(o.term)
+        if name == "parts":
+            ln = self.e.uf("path!nparts", P, I_)(o.term)
+            ctx.assume(ln >= 0)
+            return SymSeq(self.e.uf("path!parts", P, z3.ArraySort(I_, S))(o.term), ln, V.Str)
+        raise EngineLimit("path attribute %s" % name)
+
     def bi_typing_cast(self, ctx, t, v):
         return v
 
@@ -1111,6 +1349,10 @@ class Lib:
     def kind_of(o):
         if isinstance(o, V.BytesV):
             return "bytes"
+        from . import strmodel as _sm
+
+        if isinstance(o, _sm.RegexV):
+            return "regex"
         if isinstance(o, V.GroupSlot):
             return "groupslot"
         if isinstance(o, V.GroupDict):
@@ -1167,6 +1409,35 @@ class Lib:
         self._mutating(ctx, o)
         o.items.append(x)
 
+    def m_seq_append(self, ctx, o, x):
+        """list.append on a symbolic list that the receiver object owns (a field of a materialised mutable object)."""
+        from .symexec import short
+        from . import mutstate
+
+        if not (getattr(o, "owned", False) or o.fresh):
+            ctx.oblige("%s/frame#aliased-mutation" % short(ctx.func), False, kind="frame")
+        if isinstance(x, Obj) and x.fields is not None:
+            mutstate.publish(self.e, ctx, x)
+        o.arr = z3.Store(o.arr, o.length, o.kind.unwrap(x))
+        o.length = o.length + 1
+
+    def m_seq_insert(self, ctx, o, i, x):
+        """list.insert(i, x) on an owned symbolic list, for 0 <= i <= len (the other index forms are not modelled)."""
+        from .symexec import short
+        from . import mutstate
+
+        if not (getattr(o, "owned", False) or o.fresh):
+            ctx.oblige("%s/frame#aliased-mutation" % short(ctx.func), False, kind="frame")
+        it = V.Int.unwrap(i)
+        if ctx.decide(z3.Or(it < 0, it > o.length)):
+            raise EngineLimit("list.insert with a negative / out-of-range index")
+        if isinstance(x, Obj) and x.fields is not None:
+            mutstate.publish(self.e, ctx, x)
+        j = z3.FreshConst(z3.IntSort(), "j")
+        old = o.arr
+        o.arr = z3.Lambda([j], z3.If(j < it, z3.Select(old, j), z3.If(j == it, o.kind.unwrap(x), z3.Select(old, j - 1))))
+        o.length = o.length + 1
+
     def m_list_extend(self, ctx, o, xs):
         self._mutating(ctx, o)
         o.items.extend(self.e.iter_concrete(ctx, xs))
@@ -1191,6 +1462,13 @@ class Lib:
         if ctx.collector is not None and ctx.collector.owns(o):
             ctx.collector.add(ctx, o, x)
             return
+        if o.elem_sort == z3.IntSort() and (isinstance(x, str) or (isinstance(x, z3.ExprRef) and z3.is_string(x))):
+            from .loops import _is_empty_set
+
+            if not _is_empty_set(o.term):
+                raise EngineLimit("string added to a set of integers")
+            o.term = z3.K(z3.StringSort(), z3.BoolVal(False))  # `set()` literal: element type fixed by the first add
+            o.elem_sort = z3.StringSort()
         o.term = z3.Store(o.term, container_elem(o, x), z3.BoolVal(True))
 
     def m_set_issuperset(self, ctx, o, other):
@@ -1243,6 +1521,8 @@ class Lib:
         return z3.SuffixOf(V.Str.unwrap(p), V.Str.unwrap(o))
 
     def m_str_join(self, ctx, o, items):
+        if isinstance(items, SymSeq) and items.kind is V.Str and isinstance(o, str) and len(o) == 1:
+            return self.join_seq(ctx, o, items)
         xs = self.e.iter_concrete(ctx, items) if not isinstance(items, V.MappedIter) else None
         if xs is None:
             return V.Opaque("joined string")
@@ -1260,7 +1540,71 @@ class Lib:
     def m_str_split(self, ctx, o, sep=None):
         if isinstance(o, str) and isinstance(sep, str):
             return PyList(o.split(sep))
+        if isinstance(o, z3.ExprRef) and z3.is_string(o) and isinstance(sep, str) and sep:
+            from . import strmodel as _sm
+
+            if _sm.ENABLED and len(sep) == 1:
+                return self.split_seq(ctx, o, sep)  # the string-model encoding (specs that call strmodel.enable())
+            return self.split_symbolic(ctx, o, sep)
         raise EngineLimit("split of a symbolic string")
+
+    def split_symbolic(self, ctx, s, sep: str):
+        """ASSUMED (CPython str.split with a non-empty separator): the result is a non-empty list of strings that
+           contain no separator; it is a function of (s, sep); it has one element, s itself, iff s does not contain sep;
+           the first component is a prefix of s."""
+        ASSUMED.setdefault("str.split", "s.split(sep), sep non-empty: a non-empty list, a function of (s, sep), of strings "
+                           "not containing sep; [s] iff sep does not occur in s; the first component is a prefix of s")
+        sv = z3.StringVal(sep)
+        arr = self.e.uf("str.split!arr", z3.StringSort(), z3.StringSort(), z3.ArraySort(z3.IntSort(), z3.StringSort()))(s, sv)
+        n = self.e.uf("str.split!len", z3.StringSort(), z3.StringSort(), z3.IntSort())(s, sv)
+        ctx.assume(n >= 1)
+        ctx.assume((n == 1) == z3.Not(z3.Contains(s, sv)))
+        ctx.assume(z3.Implies(n == 1, z3.Select(arr, 0) == s))
+        ctx.assume(z3.PrefixOf(z3.Select(arr, 0), s))
+        ctx.assume(z3.Not(z3.Contains(z3.Select(arr, 0), sv)))
+        return SymSeq(arr, n, V.Str, fresh=True)
+
+    def join_seq(self, ctx, sep: str, items: SymSeq):
+        """<one character>.join(seq of str): a string determined by the sequence, with the ASSUMED characteristic fact
+        that splitting it at the separator gives the sequence back when the sequence is non-empty and no element
+        contains the separator (str.join / str.split are mutually inverse there)."""
+        from .loops import mk_forall as _mkf
+
+        tag = "%x" % ord(sep)
+        S, I_ = z3.StringSort(), z3.IntSort()
+        j = self.e.uf("join!%s" % tag, z3.ArraySort(I_, S), I_, S)(items.arr, items.length)
+        sp = self.split_seq(ctx, j, sep)
+        k = z3.FreshConst(I_, "k")
+        sv = z3.StringVal(sep)
+        clean = _mkf([k], z3.Implies(z3.And(0 <= k, k < items.length), z3.Not(z3.Contains(z3.Select(items.arr, k), sv))))
+        same = _mkf([k], z3.Implies(z3.And(0 <= k, k < items.length), z3.Select(sp.arr, k) == z3.Select(items.arr, k)),
+                         patterns=[z3.Select(sp.arr, k)])
+        ctx.assume(z3.Implies(z3.And(items.length >= 1, clean), z3.And(sp.length == items.length, same)))
+        return j
+
+    def split_seq(self, ctx, o, sep: str):
+        """s.split(<one character>): canonical sequence split!<sep>(s) (a function of s) with the characteristic facts
+        ASSUMED from the definition of str.split: at least one component; no component contains the separator; exactly
+        one component iff s does not contain the separator, and then it is s; the separator count is len - 1;
+        s is the join of the components (stated for the first and the last component: s starts with c[0] and ends with
+        c[-1], each followed / preceded by the separator when there are several)."""
+        from .loops import mk_forall as _mkf
+
+        tag = "%x" % ord(sep)
+        S, I_ = z3.StringSort(), z3.IntSort()
+        arr = self.e.uf("split!%s!arr" % tag, S, z3.ArraySort(I_, S))(o)
+        ln = self.e.uf("split!%s!len" % tag, S, I_)(o)
+        sv = z3.StringVal(sep)
+        k = z3.FreshConst(I_, "k")
+        ctx.assume(ln >= 1)
+        ctx.assume((ln == 1) == z3.Not(z3.Contains(o, sv)))
+        ctx.assume(z3.Implies(ln == 1, z3.Select(arr, 0) == o))
+        ctx.add_axiom(_mkf([k], z3.Implies(z3.And(0 <= k, k < ln), z3.Not(z3.Contains(z3.Select(arr, k), sv))),
+                                patterns=[z3.Select(arr, k)]))
+        ctx.assume(z3.Implies(ln > 1, z3.And(z3.PrefixOf(z3.Concat(z3.Select(arr, 0), sv), o),
+                                             z3.SuffixOf(z3.Concat(sv, z3.Select(arr, ln - 1)), o))))
+        ctx.assume(z3.Length(o) >= ln - 1)
+        return SymSeq(arr, ln, V.Str, fresh=True)
 
     def m_str_encode(self, ctx, o, enc="utf8"):
         # ASSUMED (CPython): str.encode('utf8') raises UnicodeEncodeError iff the string contains a surrogate
@@ -1280,6 +1624,22 @@ class Lib:
 
     def m_str_format(self, ctx, o, *a, **k):
         return V.Opaque("formatted")
+
+    def bi_re_compile(self, ctx, pattern, flags=0):
+        from . import strmodel as _sm
+
+        if not isinstance(pattern, str) or not isinstance(flags, int):
+            raise EngineLimit("re.compile of a non-constant pattern")
+        return _sm.compile_pattern(pattern, flags)
+
+    def m_regex_match(self, ctx, o, subject):
+        # a match object is truthy, None is not: modelled as an Optional whose presence is the match condition
+        from . import strmodel as _sm
+
+        c = _sm.match_term(self.e, ctx, o, subject)
+        if isinstance(c, bool):
+            return True if c else None
+        return OptV(z3.Not(c), True)
 
     def m_frac___pow__(self, ctx, o, x):
         raise EngineLimit("Fraction power")
